@@ -88,10 +88,12 @@ def _block(draw, level, unit, depth):
     return ''.join(out)
 
 
+_HEADER_LINE = re.compile(r'^[ \t]*(?:@|(?:async[ \t]+)?(?:def|class|if|elif|else|for|while|try|except|finally|with|match|case)\b).*$', re.S)
+
 _op = st.tuples(
     st.sampled_from(['insline', 'insline', 'dupline', 'delrange', 'delrange', 'inscol', 'inscol', 'repcol', 'delcol',
                      'indent', 'dedent', 'corpusline', 'bom', 'finalnl', 'nlstyle', 'undo', 'noop', 'movelines',
-                     'appendbody', 'appendbody', 'appendbody', 'appendeof', 'insheader']),
+                     'appendbody', 'appendbody', 'appendbody', 'appendeof', 'insheader', 'delheader', 'delheader']),
     st.integers(0, 10 ** 6), st.integers(0, 10 ** 6),
     st.one_of(st.sampled_from(EDIT_FRAGS), st.sampled_from(LINES), T.fragment()),
 )
@@ -175,6 +177,14 @@ def apply_op(lines, op, history, corpus):
         else:
             new = ind + BODY[b % len(BODY)] + ('\n' if (b // 31) % 5 else '')
         lines.insert(i + 1, new)
+    elif kind == 'delheader' and n:
+        # a deletion that crosses a block boundary: a header line (def/class/flow/decorator) goes, together with up to two
+        # lines before it (the tail of the previous suite), so its body joins whatever precedes it
+        heads = [i for i, l in enumerate(lines) if _HEADER_LINE.match(l)]
+        if heads:
+            i = heads[a % len(heads)]
+            k = b % 3
+            del lines[max(0, i - k):i + 1]
     elif kind == 'undo' and history:
         return ref_split_lines(history[a % len(history)], True)
     # 'noop' and fall-through: unchanged
@@ -202,9 +212,11 @@ def history(draw, kinds=('repo',)):
     texts = [start]
     cur = ref_split_lines(start, True)
     for op in ops:
-        if op[0] in ('inscol', 'insline', 'repcol') and draw(st.integers(0, 3)) == 0:
-            # several small edits before the next parse
-            cur = apply_op(cur, draw(_op), texts, corpus())
+        if draw(st.integers(0, 2)) == 0:
+            # several edits (in different places) before the next parse: the line diff then has several changed regions
+            # with copied regions in between - equal/delete/equal/replace/equal ...
+            for _ in range(draw(st.integers(1, 2))):
+                cur = apply_op(cur, draw(_op), texts, corpus())
         cur = apply_op(cur, op, texts, corpus())
         texts.append(''.join(cur))
     names = draw(st.lists(st.booleans(), min_size=len(texts), max_size=len(texts)))
@@ -226,14 +238,14 @@ class C04(Prop):
     rule = ('Generated (model-based histories): start text (window of real code / dedented window / fragment soup / statement-line '
             'mix) then 1-10 edit operations drawn from {insert line, duplicate lines, move lines, delete range, in-line '
             'insert/replace/delete, indent/dedent a block by spaces or tabs, insert lines of another file, toggle BOM, toggle final '
-            'newline, change newline style of a range, undo to any earlier text, no-op}; after every operation '
+            'newline, change newline style of a range, delete a header line with the tail of the suite before it, undo to any earlier text, no-op}, one to three operations per step (several changed regions per line diff); after every step '
             'parse(text, diff_cache=True, path=private key), optionally after calling get_used_names() on the previous tree. '
             'Oracle after every step: own structural comparator vs fresh parse (class, type, value, prefix, start/end, token_type, '
             'child counts), get_code()==text, parent links, get_used_names() equal to the fresh one with all leaves in the current '
             'tree, no exception. Non-trivial: the history contains a step where the diff parser both copied and re-parsed '
             '(DiffParser._copy_count/_parser_count of a counting subclass on a private grammar instance) and the text changed. '
             'Distinct by hash of (version, texts).')
-    budgets = {'quick': 20000, 'thorough': 600000}
+    budgets = {'quick': 40000, 'thorough': 600000}
     time_caps = {'quick': 150, 'thorough': 1700}
     shrink_fields = ('texts',)
 
